@@ -86,4 +86,15 @@ CHECKS = {
                 "defaults, long wrapped string defaults). Trusted: Lean kernel (no axioms needed), the harness.",
         "technique": "Lean 4 proof (induction over the conversion sequence, parametric in the hops) + exhaustive short-chain oracle on the real pipeline",
     },
+    "C14": {
+        "text": "Lean theorem over the ReST reference parser of the docstring model, for EVERY input text (structural recursion over chunks): whatever "
+                "it returns has pairwise distinct parameter names, none with a leading asterisk; the clause 'names are non-empty' is proved FALSE "
+                "of the model on a witness that the real parser reproduces (known finding). All other clauses and all other parsers (Google/NumPy "
+                "docstrings, function with posonly/*args/kw-only/**kwargs signatures and several invocation modes, class, pydantic, argparse, "
+                "JSON-schema, SQLAlchemy x3) are evaluated on the real parsers' outputs over grammar-generated inputs and arbitrary text.",
+        "note": "Partial: only the ReST model parser is covered by a theorem; 'type parses as a Python expression' and 'every signature parameter occurs "
+                "exactly once' are oracle-only. 16 known findings (*args/**kwargs/posonly missing, empty/absorbed types, empty name, server_default key). "
+                "Trusted: Lean kernel + 3 axioms, C01's correspondence for the model, the harness.",
+        "technique": "Lean 4 proof (invariant by induction over parsed chunks) + well-formedness oracle on every real parser",
+    },
 }
